@@ -50,6 +50,8 @@ structure Ctx (V : Type) where
   /-- `strconv.ParseFloat` on `le` values, tabulated -/
   pf : List (String × Option V) := []
   q : Quirks := {}
+  /-- distributed execution: what each remote engine stores (`.remote i e` evaluates `e` there) -/
+  parts : List (List (Series V)) := []
 
 variable {V : Type} [Val V]
 
@@ -273,8 +275,10 @@ def eval (c : Ctx V) (t : Int) : Expr V → Except Err (Value V)
   | .vsel s => .ok (.vec (selectV c s t))
   | .msel _ _ => .error .unsupported
   | .subq _ => .error .unsupported
-  | .coalesce _ => .error .unsupported
-  | .remote _ _ => .error .unsupported
+  | .coalesce es => do
+    let v ← evalVecs c t es
+    pure (.vec v)
+  | .remote i e => eval { c with st := c.parts.getD i [] } t e
   | .paren e => eval c t e
   | .pos e => eval c t e
   | .stepInv e => eval c c.start e
@@ -369,6 +373,14 @@ def eval (c : Ctx V) (t : Int) : Expr V → Except Err (Value V)
         dedupCheck c (v.map fun x => (x.1.dropName, applySimple fn x.2))
       else .error .unsupported
     | _, _ => .error .unsupported
+
+/-- the children of a coalesce node: their vectors one after the other -/
+def evalVecs (c : Ctx V) (t : Int) : List (Expr V) → Except Err (Vec V)
+  | [] => .ok []
+  | e :: es => do
+    let v ← (← eval c t e).asVec
+    let r ← evalVecs c t es
+    pure (v ++ r)
 
 end
 
